@@ -5,13 +5,13 @@
 use rip_kernel::{Event, EventKind, StreamKind};
 use rip_log::EventLog;
 use ripd::{
-    CompactionCheckpointCumulativeV1Request, CompactionCutPointsV1Request, CompactionStatusV1Request, ContextSelectionStatusV1Request, ContinuityRunLink,
-    ContinuityStore, ProviderCursorStatusV1Request, ToolSideEffects,
+    CompactionAutoScheduleV1Request, CompactionAutoV1Request, CompactionCheckpointCumulativeV1Request, CompactionCutPointsV1Request, CompactionStatusV1Request,
+    ContextSelectionStatusV1Request, ContinuityRunLink, ContinuityStore, ProviderCursorRotateV1Request, ProviderCursorStatusV1Request, ToolSideEffects,
 };
 use rv::sched::CrashRec;
 use rv::*;
 use serde_json::json;
-use std::collections::{BTreeMap, HashMap};
+use std::collections::{BTreeMap, HashMap, HashSet};
 use std::path::{Path, PathBuf};
 use std::sync::atomic::{AtomicU64, Ordering};
 use std::sync::{Arc, Mutex};
@@ -281,6 +281,51 @@ fn copy_store(src: &Path, dst: &Path, mode: CopyMode) -> std::io::Result<()> {
         Ok(())
     }
     walk(src, dst, Path::new(""), mode)
+}
+
+/// Makes the tree `dst` byte-identical to `src` again (same files, same contents) while writing as little as
+/// possible: a file of `dst` that still begins with the bytes of its `src` counterpart (an append-only file that
+/// grew) is truncated back, an unchanged file is left alone, anything else is copied again / deleted.
+fn reset_store(src: &Path, dst: &Path) -> std::io::Result<()> {
+    fn walk(src: &Path, dst: &Path, rel: &Path) -> std::io::Result<()> {
+        let (s, d) = (src.join(rel), dst.join(rel));
+        // entries of dst that src does not have
+        for e in std::fs::read_dir(&d)? {
+            let e = e?;
+            let sp = s.join(e.file_name());
+            let ft = e.file_type()?;
+            if ft.is_dir() {
+                if !sp.is_dir() {
+                    std::fs::remove_dir_all(e.path())?;
+                }
+            } else if !sp.is_file() {
+                std::fs::remove_file(e.path())?;
+            }
+        }
+        for e in std::fs::read_dir(&s)? {
+            let e = e?;
+            let ft = e.file_type()?;
+            let r = rel.join(e.file_name());
+            let dp = dst.join(&r);
+            if ft.is_dir() {
+                std::fs::create_dir_all(&dp)?;
+                walk(src, dst, &r)?;
+            } else if ft.is_file() {
+                let want = std::fs::read(e.path())?;
+                match std::fs::read(&dp) {
+                    Ok(have) if have == want => {}
+                    Ok(have) if have.len() > want.len() && have[..want.len()] == want[..] => {
+                        std::fs::OpenOptions::new().write(true).open(&dp)?.set_len(want.len() as u64)?;
+                    }
+                    _ => {
+                        std::fs::copy(e.path(), &dp)?;
+                    }
+                }
+            }
+        }
+        Ok(())
+    }
+    walk(src, dst, Path::new(""))
 }
 
 // ------------------------------------------------------------------ workload
@@ -1037,9 +1082,15 @@ fn followups(nthreads: usize, nsess: usize, bulk: bool) -> Vec<Op> {
 
 /// Records which frames an op added to the truth log (ids and line lengths), assigns model frame ids.
 fn diff_frames(root: &Path, before_bytes: u64) -> Vec<Body> {
-    let bytes = std::fs::read(truth_path(root)).unwrap_or_default();
-    let tail = &bytes[(before_bytes as usize).min(bytes.len())..];
-    split_bodies(tail).0.into_iter().flatten().collect()
+    use std::io::{Read, Seek, SeekFrom};
+    let mut tail = vec![];
+    if let Ok(mut f) = std::fs::File::open(truth_path(root)) {
+        let len = f.metadata().map(|m| m.len()).unwrap_or(0);
+        if f.seek(SeekFrom::Start(before_bytes.min(len))).is_ok() {
+            let _ = f.read_to_end(&mut tail);
+        }
+    }
+    split_bodies(&tail).0.into_iter().flatten().collect()
 }
 fn truth_len(root: &Path) -> u64 {
     std::fs::metadata(truth_path(root)).map(|m| m.len()).unwrap_or(0)
@@ -1102,8 +1153,9 @@ fn arm_all(on: bool) {
     CrashRec::arm(on);
     fsx::arm(on);
 }
-fn run_workload(ops: &[Op], scratch: &Path, wl_json: serde_json::Value, with_model: bool, bulk: bool, bumps: &mut Vec<String>) -> Vec<CaseOut> {
+fn run_workload(ops: &[Op], scratch: &Path, wl_json: serde_json::Value, with_model: bool, bulk: bool, sweep: bool, bumps: &mut Vec<String>) -> Vec<CaseOut> {
     std::fs::create_dir_all(scratch).expect("scratch");
+    let t_wl = Instant::now();
     let root = scratch.join("live");
     let _ = std::fs::remove_dir_all(&root);
     let mut w = World::open(&root, vec![], BTreeMap::new(), vec![]);
@@ -1115,6 +1167,7 @@ fn run_workload(ops: &[Op], scratch: &Path, wl_json: serde_json::Value, with_mod
     let mut snaps_acked: Vec<String> = vec![];
     let mut out = vec![];
     let mut point_ordinal = 0usize;
+    let mut seen_states: HashSet<u64> = HashSet::new();
     for (i, op) in ops.iter().enumerate() {
         if matches!(op, Op::Ensure | Op::Branch { .. } | Op::Handoff { .. }) {
             std::thread::sleep(std::time::Duration::from_millis(2)); // distinct created_at timestamps
@@ -1168,6 +1221,37 @@ fn run_workload(ops: &[Op], scratch: &Path, wl_json: serde_json::Value, with_mod
             let second = scratch.join("snap-bulk");
             std::fs::rename(&root, &parked).expect("park live store");
             std::fs::rename(&s.dir, &root).expect("move snapshot in");
+            // ---- every kind of first append, once per distinct recovered store of this workload
+            if sweep && seen_states.insert(state_hash(&root)) {
+                let t0 = Instant::now();
+                let pristine = scratch.join("snap-pristine");
+                let _ = std::fs::remove_dir_all(&pristine);
+                std::fs::rename(&root, &pristine).expect("keep the snapshot");
+                let acks = if s.name == "op.returned" { &acked_now } else { &acked };
+                bumps.push("first-append-sweep-stores".into());
+                let last_msg = last_msgs_in_log(&pristine, &w.threads);
+                for (n, kind) in FIRST_KINDS.into_iter().enumerate() {
+                    let tc = Instant::now();
+                    if n == 0 {
+                        copy_store(&pristine, &root, CopyMode::Full).expect("sweep copy");
+                    } else {
+                        reset_store(&pristine, &root).expect("sweep reset");
+                    }
+                    tick(&T_SWEEP_COPY, tc);
+                    let ctx = format!("after a crash at {} (op {i}, after {}) and restart", s.name, s.after);
+                    let vs = first_append_restart(&root, kind, &w, &last_msg, threads_acked, acks, &ctx, bumps);
+                    if !vs.is_empty() {
+                        let cj = json!({"workload": wl_json, "crash_op": i, "crash_point": s.name, "after_point": s.after, "before_effect_on": s.detail, "point_ordinal": point_ordinal, "bulk_first": false,
+                            "first_append_kind_on_every_thread": format!("{kind:?}"), "then": "a message on every thread; oracle: streams 0,1,2,.., replay_validated, acknowledged frames once, replay_events = log"});
+                        out.push(CaseOut { term: String::new(), json: cj, violations: vs, tag: format!("first={kind:?}@{}", s.name) });
+                    }
+                }
+                let tc = Instant::now();
+                let _ = std::fs::remove_dir_all(&root);
+                tick(&T_SWEEP_COPY, tc);
+                std::fs::rename(&pristine, &root).expect("snapshot back");
+                tick(&T_SWEEP, t0);
+            }
             if bulk {
                 let t0 = Instant::now();
                 let _ = std::fs::remove_dir_all(&second);
@@ -1196,6 +1280,9 @@ fn run_workload(ops: &[Op], scratch: &Path, wl_json: serde_json::Value, with_mod
     REC.with(|c| *c.borrow_mut() = None);
     drop(w);
     let _ = std::fs::remove_dir_all(scratch);
+    if std::env::var("RV_C05_TIMES").is_ok() {
+        eprintln!("c05 workload {}: {} ops, {} cases, {} distinct stores, {} ms", wl_json["index"], ops.len(), out.len(), seen_states.len(), t_wl.elapsed().as_millis());
+    }
     out
 }
 
@@ -1472,6 +1559,290 @@ fn analyse(
     CaseOut { term, json: cj, violations, tag: format!("{}@{:?}", s.name, ops[op_index]).chars().take(60).collect() }
 }
 
+// ------------------------------------------------------------------ EVERY kind of first append after the restart
+/// A restart forgets every in-memory counter: the FIRST append of each writer on a thread has to find its seq
+/// on disk, and every writer has its own code for that.  So each distinct recovered store is restarted once per
+/// kind of writer, with that kind as the first append on EVERY thread (then a message on every thread: the counter
+/// the cold start cached must be right, too).  Oracle-only (no model case): every line one frame, every stream
+/// 0,1,2,.. in file order, replay_validated passes, every acknowledged frame exactly once, replay_events of a
+/// fresh store = the log's stream for every thread that got an append.
+#[derive(Clone, Copy, Debug, PartialEq)]
+enum First {
+    RunSpawned,
+    RunEnded,
+    SideFx,
+    Selection,
+    Compiled,
+    Cursor,
+    /// provider_cursor_rotate_v1 (appends when the thread has a cursor)
+    Rotate,
+    /// compaction_checkpoint_cumulative_v1 at the newest message the store knows (stride 1)
+    Checkpoint,
+    /// compaction_auto_v1 (job_spawned, checkpoint_created, job_ended)
+    Auto,
+    /// compaction_auto_schedule_v1 with execute (schedule_decided first)
+    Schedule,
+    Branch,
+    Handoff,
+    /// (the primary follow-ups already start with a message on every thread; kept so the sweep is self-contained)
+    Msg,
+}
+const FIRST_KINDS: [First; 12] = [
+    First::Checkpoint,
+    First::Auto,
+    First::Schedule,
+    First::Rotate,
+    First::RunSpawned,
+    First::RunEnded,
+    First::SideFx,
+    First::Selection,
+    First::Compiled,
+    First::Cursor,
+    First::Branch,
+    First::Handoff,
+    // (First::Msg: the primary follow-ups of every crash point start with a message on every thread)
+];
+impl First {
+    /// plain locked appends: never refused on a thread whose creation had been acknowledged
+    fn plain(self) -> bool {
+        matches!(self, First::Msg | First::RunSpawned | First::RunEnded | First::SideFx | First::Selection | First::Compiled | First::Cursor)
+    }
+}
+impl World {
+    fn exec_first(&mut self, k: First, t: usize) -> Result<(), String> {
+        let tid = self.tid(t);
+        match k {
+            First::Msg => self.exec(&Op::Msg { t, len: 0 }),
+            First::RunSpawned => self.exec(&Op::RunSpawned { t }),
+            First::RunEnded => self.exec(&Op::RunEnded { t }),
+            First::SideFx => self.exec(&Op::SideFx { t }),
+            First::Selection => self.exec(&Op::Selection { t }),
+            First::Compiled => self.exec(&Op::Compiled { t }),
+            First::Cursor => self.exec(&Op::Cursor { t }),
+            First::Branch => self.exec(&Op::Branch { t }),
+            First::Handoff => self.exec(&Op::Handoff { t }),
+            First::Rotate => {
+                self.returned.clear();
+                self.store
+                    .provider_cursor_rotate_v1(&tid, ProviderCursorRotateV1Request { provider: None, endpoint: None, model: None, reason: Some("rv".into()), actor_id: "user".into(), origin: "rv".into() })
+                    .map(|_| ())
+            }
+            First::Checkpoint => {
+                self.returned.clear();
+                self.store
+                    .compaction_checkpoint_cumulative_v1(
+                        &tid,
+                        CompactionCheckpointCumulativeV1Request {
+                            summary_markdown: Some("summary".into()),
+                            summary_artifact_id: None,
+                            to_message_id: None,
+                            to_seq: None,
+                            stride_messages: Some(1),
+                            actor_id: "user".into(),
+                            origin: "rv".into(),
+                        },
+                    )
+                    .map(|_| ())
+            }
+            First::Auto => {
+                self.returned.clear();
+                self.store
+                    .compaction_auto_v1(&tid, CompactionAutoV1Request { stride_messages: Some(1), max_new_checkpoints: Some(1), dry_run: Some(false), actor_id: "user".into(), origin: "rv".into() })
+                    .and_then(|r| if r.status == "failed" { Err(format!("auto compaction failed: {:?}", r.error)) } else { Ok(()) })
+            }
+            First::Schedule => {
+                self.returned.clear();
+                self.store
+                    .compaction_auto_schedule_v1(
+                        &tid,
+                        CompactionAutoScheduleV1Request {
+                            stride_messages: Some(1),
+                            max_new_checkpoints: Some(1),
+                            block_on_inflight: Some(false),
+                            execute: Some(true),
+                            dry_run: Some(false),
+                            actor_id: "user".into(),
+                            origin: "rv".into(),
+                        },
+                    )
+                    .and_then(|r| if r.decision == "failed" { Err(format!("scheduled compaction failed: {:?}", r.error)) } else { Ok(()) })
+            }
+        }
+    }
+}
+/// content hash of a store (relative path + bytes of every file): two crash points with the same hash are the same
+/// recovered store
+fn state_hash(root: &Path) -> u64 {
+    use std::hash::{Hash, Hasher};
+    fn walk(dir: &Path, rel: &Path, out: &mut Vec<(PathBuf, PathBuf)>) {
+        for e in std::fs::read_dir(dir).into_iter().flatten().flatten() {
+            let r = rel.join(e.file_name());
+            match e.file_type() {
+                Ok(ft) if ft.is_dir() => walk(&e.path(), &r, out),
+                Ok(ft) if ft.is_file() => out.push((r, e.path())),
+                _ => {}
+            }
+        }
+    }
+    let mut files = vec![];
+    walk(root, Path::new(""), &mut files);
+    files.sort();
+    let mut h = std::collections::hash_map::DefaultHasher::new();
+    for (r, p) in files {
+        r.hash(&mut h);
+        std::fs::read(&p).unwrap_or_default().hash(&mut h);
+    }
+    h.finish()
+}
+/// the newest message of every thread AS THE LOG OF THIS STORE HAS IT (the live run's `last_msg` may name a message
+/// the crash lost)
+fn last_msgs_in_log(root: &Path, threads: &[String]) -> BTreeMap<usize, String> {
+    let mut m = BTreeMap::new();
+    for b in read_bodies(&truth_path(root)).into_iter().flatten() {
+        if b.ok && b.continuity && b.kind == "continuity_message_appended" {
+            if let Some(t) = threads.iter().position(|x| *x == b.stream) {
+                m.insert(t, b.id.clone());
+            }
+        }
+    }
+    m
+}
+static T_SWEEP: AtomicU64 = AtomicU64::new(0);
+static T_SWEEP_COPY: AtomicU64 = AtomicU64::new(0);
+static T_SWEEP_EXEC: AtomicU64 = AtomicU64::new(0);
+/// One restart of the store at `root` with `kind` as the first append on every thread.  (what, class) per violation.
+#[allow(clippy::too_many_arguments)]
+fn first_append_restart(root: &Path, kind: First, w: &World, last_msg: &BTreeMap<usize, String>, threads_acked: usize, acked: &[String], ctx: &str, bumps: &mut Vec<String>) -> Vec<(String, String)> {
+    let mut violations: Vec<(String, String)> = vec![];
+    let threads0 = w.threads.clone();
+    let te = Instant::now();
+    let mut w2 = World::open(root, threads0.clone(), last_msg.clone(), w.sess_ids.clone());
+    let mut acked2: Vec<String> = acked.to_vec();
+    let mut appended: HashSet<String> = HashSet::new();
+    let mut any = false;
+    let mut step = |w2: &mut World, label: String, must: bool, f: &mut dyn FnMut(&mut World) -> Result<(), String>, violations: &mut Vec<(String, String)>| {
+        let before = truth_len(root);
+        let r = std::panic::catch_unwind(std::panic::AssertUnwindSafe(|| f(w2)));
+        let r = match r {
+            Ok(r) => r,
+            Err(_) => {
+                violations.push((format!("{ctx}: {label} panicked"), "panic".into()));
+                Err("panic".into())
+            }
+        };
+        if must && r.is_err() {
+            violations.push((format!("{ctx}: {label} on a thread whose creation had been acknowledged was refused: {}", r.as_ref().err().unwrap()), "first_append_refused".into()));
+        }
+        let frames = diff_frames(root, before);
+        for b in frames.iter().filter(|b| b.ok) {
+            appended.insert(b.stream.clone());
+        }
+        if r.is_ok() {
+            acked2.extend(frames.iter().filter(|b| b.ok).map(|b| b.id.clone()));
+            for id in &w2.returned {
+                if !acked2.contains(id) {
+                    acked2.push(id.clone());
+                }
+            }
+        }
+        !frames.is_empty()
+    };
+    for t in 0..threads0.len() {
+        let must = kind.plain() && t < threads_acked;
+        any |= step(&mut w2, format!("first append {kind:?} on thread#{t}"), must, &mut |w2| w2.exec_first(kind, t), &mut violations);
+    }
+    // the counters the cold starts cached are used now (children of Branch / Handoff included)
+    for t in 0..w2.threads.len() {
+        step(&mut w2, format!("message on thread#{t} after the first appends ({kind:?})"), t < threads_acked, &mut |w2| w2.exec(&Op::Msg { t, len: 0 }), &mut violations);
+    }
+    bumps.push(format!("first-append={kind:?}"));
+    if any {
+        bumps.push(format!("first-append-wrote-frames={kind:?}"));
+    }
+    let threads1 = w2.threads.clone();
+    drop(w2);
+    tick(&T_SWEEP_EXEC, te);
+    // ---- oracle
+    let lines = read_bodies(&truth_path(root));
+    let mut bad_lines = 0;
+    let mut counters: HashMap<(bool, bool, String), u64> = HashMap::new();
+    let mut bad: Vec<String> = vec![];
+    for l in &lines {
+        if l.len() != 1 || !l[0].ok {
+            bad_lines += 1;
+            continue;
+        }
+        let b = &l[0];
+        let e = counters.entry((b.continuity, b.session, b.stream.clone())).or_insert(0);
+        if b.seq != *e {
+            if bad.is_empty() {
+                bad.push(format!("thread#{:?} ({}) carries seq {} where {} is due", threads1.iter().position(|t| *t == b.stream), b.kind, b.seq, *e));
+            }
+        } else {
+            *e += 1;
+        }
+    }
+    if bad_lines > 0 {
+        violations.push((format!("{ctx}: with {kind:?} as the first append on every thread, events.jsonl holds {bad_lines} line(s) that are not one frame"), "first_append_unparseable_truth_line".into()));
+    }
+    if let Some(b) = bad.first() {
+        violations.push((format!("{ctx}: with {kind:?} as the first append on every thread a stream is not 0,1,2,..: {b}"), "first_append_breaks_numbering".into()));
+    }
+    let log = Arc::new(EventLog::new(truth_path(root)).expect("log"));
+    if let Err(e) = log.replay_validated() {
+        if bad_lines == 0 && bad.is_empty() {
+            violations.push((format!("{ctx}: with {kind:?} as the first append on every thread replay_validated fails: {e}"), "first_append_replay_fails".into()));
+        }
+    } else if bad_lines > 0 || !bad.is_empty() {
+        violations.push(("replay_validated accepts a store the line-level oracle rejects".into(), "validator_disagrees".into()));
+    }
+    let flat: Vec<&Body> = lines.iter().flatten().collect();
+    let mut count: HashMap<&str, usize> = HashMap::new();
+    for b in &flat {
+        *count.entry(b.id.as_str()).or_insert(0) += 1;
+    }
+    for id in &acked2 {
+        let n = count.get(id.as_str()).cloned().unwrap_or(0);
+        if n != 1 {
+            violations.push((format!("{ctx}: with {kind:?} as the first append on every thread an acknowledged frame occurs {n} times"), "first_append_acked_not_exactly_once".into()));
+            break;
+        }
+    }
+    // reads = truth, for every thread that got an append (its full sidecar has been re-synced or extended)
+    let store = ContinuityStore::new(data_dir(root), ws_dir(root), log).expect("store");
+    for (t, id) in threads1.iter().enumerate() {
+        if !appended.contains(id) {
+            continue;
+        }
+        let want: Vec<(u64, String)> = flat.iter().filter(|b| b.ok && b.continuity && b.stream == *id).map(|b| (b.seq, b.id.clone())).collect();
+        // .. at the level of the file every reader starts from: the first append after a restart reconciles the
+        // thread's full sidecar with the log (whatever the writer), so after it the sidecar IS the thread's stream
+        let side: Vec<(u64, String)> = read_bodies(&side_path(root, id)).into_iter().flatten().map(|b| (b.seq, b.id.clone())).collect();
+        if side != want {
+            violations.push((
+                format!(
+                    "{ctx}: with {kind:?} as the first append on every thread, the full sidecar of thread#{t} is not the thread's stream in the log afterwards (sidecar seqs {:?}, log holds {} frames): the restart's first append did not reconcile it",
+                    side.iter().map(|x| x.0).collect::<Vec<_>>(),
+                    want.len()
+                ),
+                "first_append_leaves_full_sidecar_off_the_log".into(),
+            ));
+        }
+        let got = store.replay_events(id).map(|v| v.iter().map(|e| (e.seq, e.id.clone())).collect::<Vec<_>>());
+        if got.as_ref().ok() != Some(&want) {
+            let desc = match &got {
+                Ok(g) => format!("{} frames (seqs {:?})", g.len(), g.iter().map(|x| x.0).collect::<Vec<_>>()),
+                Err(e) => format!("error {e}"),
+            };
+            violations.push((
+                format!("{ctx}: with {kind:?} as the first append on every thread, replay_events of thread#{t} after a second restart answers {desc}, the log holds {} frames", want.len()),
+                "first_append_reads_differ_from_log".into(),
+            ));
+        }
+    }
+    violations
+}
+
 // ------------------------------------------------------------------ workloads
 fn thin_workload() -> Vec<Op> {
     vec![
@@ -1682,7 +2053,21 @@ fn main() {
         assert!(seen >= 4, "c05: file-system interposition inactive (saw {seen} of the 4 probe effects: create, write, rename, unlink)");
         let _ = std::fs::remove_dir_all(&probe);
     }
-    let nworkers = std::thread::available_parallelism().map(|n| n.get()).unwrap_or(4).clamp(2, 8).min(workloads.len().max(1));
+    // heaviest workloads first (the wall time is the longest chain): crash points ~ ops, doubled by the bulk-first
+    // second restart, and the ops with many effects (checkpoint, branch, handoff, rebuild) weigh more
+    let mut order: Vec<usize> = (0..workloads.len()).collect();
+    let weight = |wi: usize| -> usize {
+        let (ops, bulk) = &workloads[wi];
+        let w: usize = ops.iter().map(|o| match o {
+            Op::Checkpoint { .. } | Op::Branch { .. } | Op::Handoff { .. } | Op::DropSideRead { .. } => 4,
+            Op::Msg { .. } => 3,
+            Op::Sess { .. } | Op::Snapshot { .. } => 1,
+            _ => 2,
+        }).sum();
+        w * if *bulk { 2 } else { 1 }
+    };
+    order.sort_by_key(|wi| std::cmp::Reverse(weight(*wi)));
+    let nworkers = std::thread::available_parallelism().map(|n| n.get()).unwrap_or(4).clamp(2, 12).min(workloads.len().max(1));
     let next = std::sync::atomic::AtomicUsize::new(0);
     type Done = (Vec<CaseOut>, Vec<String>);
     let done: Vec<Mutex<Option<Done>>> = workloads.iter().map(|_| Mutex::new(None)).collect();
@@ -1690,14 +2075,15 @@ fn main() {
     std::thread::scope(|sc| {
         for _ in 0..nworkers {
             sc.spawn(|| loop {
-                let wi = next.fetch_add(1, Ordering::SeqCst);
-                if wi >= workloads.len() {
+                let k = next.fetch_add(1, Ordering::SeqCst);
+                if k >= workloads.len() {
                     break;
                 }
+                let wi = order[k];
                 let (ops, bulk) = &workloads[wi];
                 let wl_json = json!({"index": wi, "ops": ops.iter().map(op_json).collect::<Vec<_>>()});
                 let mut bumps = vec![];
-                let cases = run_workload(ops, &scratch.path().join(format!("w{wi}")), wl_json, with_model, *bulk, &mut bumps);
+                let cases = run_workload(ops, &scratch.path().join(format!("w{wi}")), wl_json, with_model, *bulk, true, &mut bumps);
                 *done[wi].lock().unwrap() = Some((cases, bumps));
             });
         }
@@ -1746,7 +2132,7 @@ fn main() {
     res.write(&a.out);
     println!("c05: {} crash points, {} oracle violations", res.evaluations, res.oracle_violations.len());
     let ms = |c: &AtomicU64| c.load(Ordering::Relaxed) / 1000;
-    println!("c05 wall (ms): snapshots {} copies-for-reads {} reads {} follow-ups {} oracle {}", ms(&T_SNAP), ms(&T_COPY), ms(&T_READS), ms(&T_FOLLOW), ms(&T_ORACLE));
+    println!("c05 wall (ms): snapshots {} copies-for-reads {} reads {} follow-ups {} oracle {} first-append-sweep {} (copies {} restarts+appends {})", ms(&T_SNAP), ms(&T_COPY), ms(&T_READS), ms(&T_FOLLOW), ms(&T_ORACLE), ms(&T_SWEEP), ms(&T_SWEEP_COPY), ms(&T_SWEEP_EXEC));
     for v in res.oracle_violations.iter().take(12) {
         println!("  [{}] {}", v.class, v.what);
     }
